@@ -169,7 +169,7 @@ def order_rule(repo, res, rule="ORDER"):
         return
     envs = A.collect_envs(f)
     pm = A.parent_map(f.body)
-    ins = [c for c in P.find_calls(f.body, methods={"insert"}) if "lhs_name" in repo.text(f.file, c)]
+    ins = [c for c in P.find_calls(f.body, methods={"insert"}) if "lhs_name" in repo.text(f.file, c) or any(x.get("k") == "Field" and x.get("member") == "lhs_name" for x in A.walk(c))]
     passes = [c for c in P.find_calls(f.body, names={"distribute_descriptions", "specialize_nonterminals", "resolve_nonterminals", "get_nonterminals_resolution_order", "check_subword_spaces"})]
     ok = len(ins) == 1 and passes and all(A.before(ins[0], c) for c in passes)
     res.check(ok, rule, f"{rule}:definitions-collected-first", "every plain definition is entered into the name-keyed map before any pass runs", f.loc())
